@@ -17,6 +17,7 @@ invariant for `freeChildren`; the statements below are its corollaries, for ever
 state, every depth.  The scenario differential compares the model with a real started actor system.
 -/
 import GoaktVerif.Lemmas.C09.Delete
+import GoaktVerif.Lemmas.C09.Names3
 import GoaktVerif.Lemmas.C09.StopThm
 import GoaktVerif.Lemmas.C09.Unregister
 import GoaktVerif.Model.C09.Dump
@@ -30,27 +31,38 @@ theorem tree_inv_step (t : Tree) (o : Op) (h : WF t) : WF (t.step o).1 := wf_ste
 
 /-- the tree-consistency statement: in every tree reachable from `newTree()` by any sequence of
     addRootNode / addNode / attachNode / addOrAttachNode / addWatcher / removeWatcher / removeDescendant /
-    deleteNode / reset calls, `pids` is a map keyed by PID.ID(), `counter = |pids|`, every `names`
-    entry points to a live registered node of that name, and the watcher/watchee maps are mutually
-    inverse and mention registered nodes only. -/
-def tree_full : Prop := ∀ ops : List Op, WF (Tree.empty.run ops)
+    deleteNode / reset calls,
+    * `WF`: `pids` is a map keyed by PID.ID(), `counter = |pids|`, the watcher/watchee maps are mutually inverse
+      and mention registered nodes only;
+    * `NWF` (the name index of pid_tree.go after fix 38faff1): every `names` entry and every `shadowed` pointer is a
+      live registered node of that name, the current entry never waits in `shadowed`, and EVERY registered node
+      is the entry of its name or waits in `shadowed` for it. -/
+def tree_full : Prop := ∀ ops : List Op, WF (Tree.empty.run ops) ∧ NWF (Tree.empty.run ops)
 
-theorem tree_holds : tree_full := fun ops => wf_run ops Tree.empty wf_empty
+theorem tree_holds : tree_full := fun ops => ⟨wf_run ops Tree.empty wf_empty, nwf_run ops Tree.empty nwf_empty⟩
+
+/-- no registered actor is unreachable by name: in every reachable tree the name of a registered node resolves
+    (`nodeByName`) to a registered node carrying that name (with the last-writer-wins index that preceded
+    fix 38faff1 this was false: corpus case `tree 2 … D:60.6 D:40.4`) -/
+theorem name_resolves (ops : List Op) (k : Nat) (n : Node) (hn : aget k (Tree.empty.run ops).pids = some n) :
+    ∃ q m, aget n.pid.name (Tree.empty.run ops).names = some q ∧ (Tree.empty.run ops).live q = some m
+      ∧ m.pid.name = n.pid.name :=
+  (tree_holds ops).2.resolves k n hn
 
 /-- consequences spelled out: the counter never drifts … -/
 theorem counter_eq (ops : List Op) : (Tree.empty.run ops).counter = ((Tree.empty.run ops).pids.length : Int) :=
-  (tree_holds ops).counter
+  (tree_holds ops).1.counter
 
 /-- … and whoever is in `watchers(a)` is registered and has `a` among its watchees (so `freeWatchers`
     finds a node for every watcher it snapshots, and `UnWatch` removes both directions) -/
 theorem watchers_registered (ops : List Op) (a w : Nat) (na : Node)
     (ha : aget a (Tree.empty.run ops).pids = some na) (hw : (aget w na.watchers).isSome) :
     ∃ nw, aget w (Tree.empty.run ops).pids = some nw ∧ (aget a nw.watchees).isSome :=
-  (tree_holds ops).wsym a na w ha hw
+  (tree_holds ops).1.wsym a na w ha hw
 
 -- non-vacuity: a concrete script with re-parenting, a stale `descendants` entry and a delete
 example : WF (Tree.empty.run [.addRoot ⟨10, 1, 0⟩, .addNode ⟨10, 1, 0⟩ ⟨20, 2, 1⟩, .addNode ⟨10, 1, 0⟩ ⟨30, 3, 2⟩,
-    .addNode ⟨20, 2, 1⟩ ⟨40, 4, 3⟩, .attach ⟨30, 3, 2⟩ ⟨40, 4, 3⟩, .deleteNode ⟨20, 2, 1⟩]) := tree_holds _
+    .addNode ⟨20, 2, 1⟩ ⟨40, 4, 3⟩, .attach ⟨30, 3, 2⟩ ⟨40, 4, 3⟩, .deleteNode ⟨20, 2, 1⟩]) := (tree_holds _).1
 
 /-! ## the stop path -/
 
